@@ -769,6 +769,8 @@ def unwrap_rtx(rtx: RtpPacket, payload_type: int, ssrc: int) -> RtpPacket:
     """
     Recover initial packet from a retransmission packet.
     """
+    if len(rtx.payload) < 2:
+        raise ValueError("RTX payload is too short")
     packet = RtpPacket(
         payload_type=payload_type,
         marker=rtx.marker,
